@@ -93,6 +93,12 @@ class Model:
                     return False
         return True
 
+    def _uq(self, parent, before, moving=None):
+        """'unique' if the uniqueness rule is the only reason to refuse, else
+        'unique+position' (either error is then acceptable)."""
+        st, _ = self.position(parent, before, moving)
+        return "unique" if st == "ok" else "unique+position"
+
     def position(self, parent, before, moving=None):
         """Resolve the documented `before` argument to an insert index into
         parent's child list (without `moving`).  Returns (status, index)."""
@@ -122,7 +128,7 @@ class Model:
     def add(self, parent, data, did=None, kind=None, before=None):
         eff = did if did is not None else self.calc(data)
         if self.has_did(parent.ch, eff):
-            return ("refuse", "unique")
+            return ("refuse", self._uq(parent, before))
         st, idx = self.position(parent, before)
         if st == "refuse":
             return ("refuse", "position")
@@ -142,7 +148,7 @@ class Model:
         """parent.add(src_node): a new node referencing the same data under the
         same data_id; descendants too if deep."""
         if self.has_did(parent.ch, src.did):
-            return ("refuse", "unique")
+            return ("refuse", self._uq(parent, before))
         st, idx = self.position(parent, before)
         if st == "refuse":
             return ("refuse", "position")
@@ -175,7 +181,7 @@ class Model:
             return ("undoc", "empty-tree")
         for t in tops:
             if self.has_did(parent.ch, t.did):
-                return ("refuse", "unique")
+                return ("refuse", self._uq(parent, before))
         st, idx = self.position(parent, before)
         if st == "refuse":
             return ("refuse", "position")
@@ -193,7 +199,7 @@ class Model:
         if self.is_in_subtree(target, node):
             return ("refuse", "target")
         if target is not node.parent and self.has_did(target.ch, node.did):
-            return ("refuse", "unique")
+            return ("refuse", self._uq(target, before, node))
         st, idx = self.position(target, before, moving=node)
         if st == "refuse":
             return ("refuse", "position")
